@@ -2440,6 +2440,23 @@ func TestVerifWireMcp(t *testing.T) {
 				}
 			}
 		}
+		// the CompleteReference codec: every combination of type x name x uri
+		step = newCase("complete-reference")
+		for _, t := range refTypes {
+			for _, n := range []string{"", "p"} {
+				for _, u := range []string{"", "file:///x"} {
+					step(fmt.Sprintf("ref.rt s%s s%s s%s", hxs(t), hxs(n), hxs(u)), "ref:rt", "ref-type:x"+hxs(t))
+					mem := []jmem{{"type", jStr(t)}}
+					if n != "" {
+						mem = append(mem, jmem{"name", jStr(n)})
+					}
+					if u != "" {
+						mem = append(mem, jmem{"uri", jStr(u)})
+					}
+					step("ref.dec "+jObj(mem...).tok(), "ref:dec")
+				}
+			}
+		}
 		// a registry listed whole (the client's roots) after every kind of add / remove history
 		for _, n := range []int{0, 1, 2, 3} {
 			for _, first := range []bool{true, false} {
@@ -2695,6 +2712,14 @@ func TestVerifWireMcp(t *testing.T) {
 				step("sse.lines "+ls, ltags...)
 				nd, ndtags := genNdStream(r, iog)
 				step("nd.split "+nd, ndtags...)
+			}
+			// the CompleteReference codec: a reference through marshal → unmarshal, a JSON value through
+			// unmarshal → marshal
+			{
+				t, n, u := refTypes[r.Intn(len(refTypes))], refNames[r.Intn(len(refNames))], refURIs[r.Intn(len(refURIs))]
+				step(fmt.Sprintf("ref.rt s%s s%s s%s", hxs(t), hxs(n), hxs(u)), "ref:rt", "ref-type:x"+hxs(t))
+				v, tags := genRefJSON(r)
+				step("ref.dec "+v.tok(), append([]string{"ref:dec"}, tags...)...)
 			}
 			// list results page by page on a real session
 			if c%verifN(4, 10) == 0 {
